@@ -242,10 +242,11 @@ func parseNum(s string) (string, error) {
 // ---- contracts ----
 
 type Clause struct {
-	Expr  *Node
-	Src   string
-	Tags  []string
-	Label string
+	Expr      *Node
+	Src       string
+	Tags      []string
+	Label     string
+	RootScope bool // evaluated in the root function's scope (derived invariants)
 }
 
 type LoopContract struct {
@@ -266,6 +267,7 @@ type Contract struct {
 	Lemmas   []Clause
 	Line     int
 	Lets     map[string]*Node
+	GlobalInvs []Clause
 }
 
 type typeInvariant struct {
@@ -366,9 +368,15 @@ func readContracts(path string) (map[string]*Contract, error) {
 				}
 			case "invariant":
 				if curLoop == nil {
-					return nil, fmt.Errorf("%s:%d: invariant outside loop", path, ln+1)
+					// function-level: holds at every loop head reached while verifying this
+					// function (including loops of inlined callees), in the function's scope
+					for i := range cls {
+						cls[i].RootScope = true
+					}
+					cur.GlobalInvs = append(cur.GlobalInvs, cls...)
+				} else {
+					curLoop.Invariants = append(curLoop.Invariants, cls...)
 				}
-				curLoop.Invariants = append(curLoop.Invariants, cls...)
 			case "decreases":
 				if curLoop == nil {
 					return nil, fmt.Errorf("%s:%d: decreases outside loop", path, ln+1)
@@ -476,4 +484,29 @@ func contractNames(m map[string]*Contract) []string {
 	}
 	sort.Strings(out)
 	return out
+}
+
+// nodeText renders a parsed expression back to source form.
+func nodeText(n *Node) string {
+	switch n.Kind {
+	case "num", "ident":
+		return n.Name
+	case "paren":
+		return "(" + nodeText(n.Args[0]) + ")"
+	case "unary":
+		return n.Op + nodeText(n.Args[0])
+	case "binary":
+		return nodeText(n.Args[0]) + " " + n.Op + " " + nodeText(n.Args[1])
+	case "sel":
+		return nodeText(n.Args[0]) + "." + n.Name
+	case "index":
+		return nodeText(n.Args[0]) + "[" + nodeText(n.Args[1]) + "]"
+	case "call":
+		var as []string
+		for _, a := range n.Args[1:] {
+			as = append(as, nodeText(a))
+		}
+		return nodeText(n.Args[0]) + "(" + strings.Join(as, ", ") + ")"
+	}
+	return "?"
 }
